@@ -47,6 +47,11 @@ fn write_tree(dir: &Path, files: &BTreeMap<String, Vec<u8>>) {
         std::fs::create_dir_all(p.parent().unwrap()).unwrap();
         std::fs::write(&p, content).unwrap();
     }
+    // a non-note file that shares its inode with a note (a backup made with `ln`): rewriting the note in place would
+    // rewrite it too
+    if files.contains_key("big.md") {
+        let _ = std::fs::hard_link(dir.join("big.md"), dir.join("big-hardlink.bak"));
+    }
 }
 
 struct Tree {
@@ -134,7 +139,7 @@ struct Run {
 fn run_iwe(dir: &Path, inject: Option<&str>, fsize_blocks: Option<u64>, log: &Path) -> Run {
     let bin = iwe_bin();
     let mut cmd = Command::new("strace");
-    cmd.arg("-f").arg("-qq").arg("-e").arg("trace=openat,write,rename,renameat,renameat2,unlink,unlinkat,mkdir,mkdirat,ftruncate").arg("-o").arg(log);
+    cmd.arg("-f").arg("-qq").arg("-e").arg("trace=openat,write,pwrite64,writev,copy_file_range,sendfile,close,fsync,fdatasync,rename,renameat,renameat2,unlink,unlinkat,mkdir,mkdirat,ftruncate,truncate,link,linkat,symlink,symlinkat").arg("-o").arg(log);
     if let Some(i) = inject {
         cmd.arg("-e").arg(format!("inject={}", i));
     }
@@ -182,7 +187,7 @@ impl Check for C19 {
         "fault_enumeration"
     }
     fn rule(&self) -> String {
-        "case = one generated directory tree (nested directories, names with spaces / non-ASCII / dots, non-note files, an empty directory, a big note, an already-normalised note) processed by the built `iwe normalize` binary under strace; fault-free run: every *.md holds exactly the in-memory export at the path it was read from, nothing else created / deleted / modified, no write-mode open outside the notes; faulted runs enumerate EVERY write-phase syscall of the fault-free trace: SIGKILL on entry to the k-th write-mode openat, the k-th write and the k-th rename, ENOSPC on the k-th write, and RLIMIT_FSIZE budgets; after each, every note file must hold its complete old or complete new text; distinct = (fault kind, k) crash points".into()
+        "case = one generated directory tree (nested directories, names with spaces / non-ASCII / dots, non-note files, an empty directory, a big note, an already-normalised note) processed by the built `iwe normalize` binary under strace; fault-free run: every *.md holds exactly the in-memory export at the path it was read from, nothing else created / deleted / modified, no write-mode open outside the notes; faulted runs enumerate EVERY file-system syscall the main thread makes from its first write-mode open on (openat, write, close, rename, and whatever else the write path uses: copy_file_range, sendfile, fsync, unlink ...; strace counts per tracee): SIGKILL on entry to each, ENOSPC on each data-moving one, and RLIMIT_FSIZE budgets; a hard link to a note (a backup made with ln) must keep its old content; after each, every note file must hold its complete old or complete new text; distinct = (fault kind, k) crash points".into()
     }
     fn assumptions(&self) -> Vec<String> {
         vec![
@@ -310,21 +315,42 @@ impl Check for C19 {
         rep.count("write_mode_opens", write_opens as u64);
         rep.count("file_writes", writes as u64);
         rep.count("renames", renames as u64);
-        let total_writes = base.strace.lines().filter(|l| l.contains("write(")).count();
-        // ---- faulted runs: every write-phase syscall
+        let _ = (first_write_open, openats);
+        // ---- faulted runs: every syscall of the write phase. strace counts `when=` per tracee, and the notes are written by
+        // the main thread: walk the main thread's lines, count per syscall name, and from its first write-mode open on turn
+        // every file-system syscall into a crash point (SIGKILL on entry) - whatever the write path is made of (write, rename,
+        // copy_file_range, sendfile, close ...); data-moving calls also get ENOSPC
         let mut faults: Vec<(String, Option<String>, Option<u64>)> = vec![];
-        if let Some(first) = first_write_open {
-            for k in first..=openats {
-                faults.push((format!("kill@openat#{}", k), Some(format!("openat:signal=KILL:when={}", k)), None));
+        let main_pid = base.strace.lines().next().and_then(|l| l.split_whitespace().next()).unwrap_or("").to_string();
+        let mut per_name: std::collections::HashMap<String, usize> = std::collections::HashMap::new();
+        let mut in_write_phase = false;
+        for l in base.strace.lines() {
+            let mut it = l.splitn(2, char::is_whitespace);
+            let (pid, rest) = (it.next().unwrap_or(""), it.next().unwrap_or("").trim_start());
+            if pid != main_pid || rest.starts_with('<') || rest.starts_with('+') || rest.starts_with('-') {
+                continue;
+            }
+            let Some(name) = rest.split('(').next().map(|n| n.trim().to_string()) else { continue };
+            if name.is_empty() || !name.chars().all(|c| c.is_ascii_alphanumeric() || c == '_') {
+                continue;
+            }
+            let k = {
+                let e = per_name.entry(name.clone()).or_insert(0);
+                *e += 1;
+                *e
+            };
+            if !in_write_phase && name == "openat" && (l.contains("O_WRONLY") || l.contains("O_RDWR")) {
+                in_write_phase = true;
+            }
+            if !in_write_phase || rest.starts_with("write(1,") || rest.starts_with("write(2,") {
+                continue;
+            }
+            faults.push((format!("kill@{}#{}", name, k), Some(format!("{}:signal=KILL:when={}", name, k)), None));
+            if matches!(name.as_str(), "write" | "pwrite64" | "writev" | "copy_file_range" | "sendfile") {
+                faults.push((format!("enospc@{}#{}", name, k), Some(format!("{}:error=ENOSPC:when={}", name, k)), None));
             }
         }
-        for k in 1..=total_writes {
-            faults.push((format!("kill@write#{}", k), Some(format!("write:signal=KILL:when={}", k)), None));
-            faults.push((format!("enospc@write#{}", k), Some(format!("write:error=ENOSPC:when={}", k)), None));
-        }
-        for k in 1..=renames {
-            faults.push((format!("kill@rename#{}", k), Some(format!("rename:signal=KILL:when={}", k)), None));
-        }
+        rep.count("crash_points_in_write_phase", faults.len() as u64);
         for b in [1u64, 4, 8] {
             faults.push((format!("fsize@{}blocks", b), None, Some(b)));
         }
@@ -332,7 +358,7 @@ impl Check for C19 {
         if faults.len() > cap {
             // keep the enumeration complete for openat / rename, thin out the write points evenly
             let step = (faults.len() + cap - 1) / cap;
-            faults = faults.into_iter().enumerate().filter(|(i, f)| i % step == 0 || !f.0.contains("write#")).map(|(_, f)| f).collect();
+            faults = faults.into_iter().enumerate().filter(|(i, f)| i % step == 0 || !(f.0.contains("write#") || f.0.contains("close#"))).map(|(_, f)| f).collect();
         }
         for (name, inject, fsize) in faults {
             write_tree(&dir, &tree.files);
